@@ -7,6 +7,7 @@ import (
 	"regexp"
 	"strconv"
 	"strings"
+	"syscall"
 
 	"github.com/uber-go/gopatch/patch"
 
@@ -264,11 +265,11 @@ func c19Gen(tier string, emit func(any)) {
 										}
 									}
 								}
-								for _, mode := range []string{"api", "cli-p", "cli-stdin", "cli-p2", "cli-P2", "cli-nogo"} {
+								for _, mode := range []string{"api", "cli-p", "cli-stdin", "cli-p2", "cli-P2", "cli-nogo", "cli-fifo"} {
 									if mode != "api" && indent != 0 {
 										continue
 									}
-									if (mode == "cli-p2" || mode == "cli-P2" || mode == "cli-nogo") && (len(pre)+len(mp) > 1 || named) {
+									if (mode == "cli-p2" || mode == "cli-P2" || mode == "cli-nogo" || mode == "cli-fifo") && (len(pre)+len(mp) > 1 || named) {
 										continue
 									}
 									name := "p.patch"
@@ -389,6 +390,13 @@ func c19Run(env *core.Env, ci any) core.Outcome {
 		}
 		run := func(real bool) core.Outcome {
 			var r drive.Result
+			if c.Mode == "cli-fifo" { // the patch arrives through a named pipe of the same name
+				os.Remove(pfile)
+				if err := syscall.Mkfifo(pfile, 0o644); err != nil {
+					panic("harness: " + err.Error())
+				}
+				defer drive.FeedFifo(pfile, c.Patch)()
+			}
 			if real {
 				r = drive.RunReal(filepath.Join(env.BinDir, "gopatch.real"), filepath.Join(root, "t"), args, stdin)
 			} else {
